@@ -37,6 +37,18 @@ def _tracking_open(self, *a, **k):
     return f
 
 
+def encodable(v):
+    """lone surrogates cannot be written to a file in any encoding: replace
+    them (outside the property's domain for file sinks)"""
+    if isinstance(v, str):
+        return v.replace('\ud800', 'SUR')
+    if isinstance(v, list):
+        return [encodable(x) for x in v]
+    if isinstance(v, dict):
+        return {encodable(k): encodable(x) for k, x in v.items()}
+    return v
+
+
 class Unrepresentable:
     """dumping this raises inside yaml.dump (no representer)"""
 
@@ -74,9 +86,9 @@ def run_history(item):
         if use_json:
             import check_c07
             for vid, c in zip(('v1', 'v2'), jcases):
-                vv = check_c07.concretise(c['evs'], 1)
+                vv = check_c07.concretise(c['evs'], 5)
                 obj, _ = check_c07.build(c['evs'], vv)
-                vals[vid] = ('json', None, obj, c)
+                vals[vid] = ('json', None, encodable(obj), c)
             opts = {'o1': {}, 'o2': {'indent': jcases[0]['req'] if
                                      jcases[0]['req'] >= 0 else 4,
                                      'ensure_ascii': False}}
@@ -208,6 +220,73 @@ def _chunk(items):
         pathlib.Path.open = _orig_open
 
 
+def _raw_chunk(texts):
+    """The same raw text through every source kind (document type Any and
+    Dict[str, Any]): equal results or the same error."""
+    import typing
+    y = use_repo()
+    enc = locale.getpreferredencoding(False)
+    fns = [y.load_function(), y.load_function(typing.Dict[str, typing.Any])]
+    tmp = tempfile.mkdtemp(prefix='c12r-', dir=BUILD)
+    bad = []
+    n = 0
+
+    def out(fn, src):
+        try:
+            return ['VAL', repr(fn(src))]
+        except Exception as e:  # noqa
+            import re
+            return ['ERR', type(e).__name__,
+                    re.findall(r'line (\d+), column (\d+)', str(e))]
+    try:
+        for t in texts:
+            try:
+                data = t.encode(enc)
+                t.encode('utf-16')
+            except UnicodeError:
+                continue
+            if '\r' in t or '\x85' in t or '\u2028' in t or '\u2029' in t \
+                    or '\ufeff' in t or '\x00' in t:
+                continue        # universal-newline / BOM handling differs by design
+            for fn in fns:
+                n += 1
+                ref = out(fn, t)
+                p = pathlib.Path(os.path.join(tmp, 'r.yaml'))
+                with open(str(p), 'wb') as f:
+                    f.write(data)
+                got = {'path': out(fn, p)}
+                with open(str(p), 'r', encoding=enc, newline='') as f:
+                    got['text file'] = out(fn, f)
+                got['StringIO'] = out(fn, io.StringIO(t))
+                got['BytesIO'] = out(fn, io.BytesIO(data))
+                for k, g in got.items():
+                    if g != ref:
+                        bad.append('load of %r from %s gives %s; from str: %s'
+                                   % (t, k, g, ref))
+                        break
+    finally:
+        shutil.rmtree(tmp, ignore_errors=True)
+    return bad, n
+
+
+def raw_text_differential(V, tier, rnd):
+    import multiprocessing
+    texts = loadcheck.fuzz_texts(rnd, 1500 if tier == 'quick' else 40000, [])
+    texts += ['a: |\n  x\n    \n  y\n', '\ta: 1\n\tb: 2\n', '  a: 1\n  b: 2\n',
+              'a: >\n  x\n\n   y\n', '- |2\n    x\n   \n', 'a: "x\n  \n  y"\n',
+              "k: 'a\n\n   b'\n", '\n\n  \nx: 1\n']
+    chunks = chunked(texts, NCPU * 2)
+    with multiprocessing.get_context('fork').Pool(NCPU) as pool:
+        parts = pool.map(_raw_chunk, chunks)
+    total = 0
+    for bad, n in parts:
+        total += n
+        for b in bad:
+            V.violation([[], [], [], [], b], b)
+    V.evaluations += total
+    V.notes['raw_text_loads_per_kind'] = total
+
+
 def run(tier, replay=None):
     import multiprocessing
     V = Verdict('C12', tier)
@@ -275,6 +354,7 @@ def run(tier, replay=None):
                 V.sample({'history': [[h['op'], h['kind'], h['arg'],
                                        h['path']] for h in it[0]]})
                 k += 1
+    raw_text_differential(V, tier, rnd)
     V.exhaustive = False
     return V.finish(
         'operation sequences of SourceSink up to the bound (a seeded sample of '
